@@ -36,9 +36,16 @@ def main():
             caught = []
             for pid in targets:
                 t0 = time.time()
-                c = sh(cmds[pid], cwd=HERE, env=dict(os.environ, VERIF_SEED="0"))
-                v = [l for l in c.stdout.splitlines() if l.startswith("VIOLATION")]
-                caught.append("%s: %s (%.0fs)" % (pid, "exit %d %s" % (c.returncode, (v[0][:160] if v else "")), time.time() - t0))
+                # seed 0 first; a change that is missed, or only seen through a broken correspondence, is tried
+                # again with the next seeds (the seed that caught it is recorded)
+                for seed in ("0", "1", "2"):
+                    c = sh(cmds[pid], cwd=HERE, env=dict(os.environ, VERIF_SEED=seed))
+                    v = [l for l in c.stdout.splitlines() if l.startswith("VIOLATION")]
+                    if v and "no-failing-input-found" not in v[0]:
+                        break
+                    if pid != meta["property"]:
+                        break
+                caught.append("%s: seed %s %s (%.0fs)" % (pid, seed, "exit %d %s" % (c.returncode, (v[0][:160] if v else "")), time.time() - t0))
             rows.append((name, meta["property"], tests, "demo exit %d" % demo.returncode, " | ".join(caught)))
         finally:
             sh("git -C /repo checkout -- .")
@@ -50,7 +57,7 @@ def main():
         allrows[r[0]] = list(r)
     json.dump(allrows, open(rp, "w"), indent=1, sort_keys=True)
     with open(os.path.join(SEEDED, "RESULTS.md"), "w") as f:
-        f.write("# Seeded breaking changes vs. checks (quick tier, seed 0)\n\n| change | property | baseline tests | demo | checks |\n|---|---|---|---|---|\n")
+        f.write("# Seeded breaking changes vs. checks (quick tier; seed 0, then 1 and 2 when seed 0 gives no concrete input)\n\n| change | property | baseline tests | demo | checks |\n|---|---|---|---|---|\n")
         for k in sorted(allrows):
             f.write("| %s | %s | %s | %s | %s |\n" % tuple(allrows[k]))
 
